@@ -215,6 +215,41 @@ def location(loc):
     return m.group(1) if m else (loc or "?")
 
 
+_FN = re.compile(r"\bfn\s+([A-Za-z0-9_]+)")
+_SRC = {}
+
+
+def panic_site(loc):
+    """Signature key of a panic location that survives unrelated edits of the file: '<crate path>:<enclosing fn>:<source
+    line text>' read from the file the panic message names; '<crate path>:<line>' when the source cannot be read."""
+    rel = location(loc)
+    m = re.match(r"^(.*):(\d+)$", loc or "")
+    if not m:
+        return rel
+    path, line = m.group(1), int(m.group(2))
+    lines = _SRC.get(path)
+    if lines is None:
+        lines = []
+        for cand in (path, os.path.join(REPO, path)):
+            try:
+                with open(cand, encoding="utf-8", errors="replace") as f:
+                    lines = f.read().split("\n")
+                break
+            except OSError:
+                continue
+        _SRC[path] = lines
+    if not (0 < line <= len(lines)):
+        return rel
+    text = " ".join(lines[line - 1].split())[:120]
+    fn = "?"
+    for k in range(line - 1, -1, -1):
+        f = _FN.search(lines[k])
+        if f:
+            fn = f.group(1)
+            break
+    return "%s:%s:%s" % (rel.rsplit(":", 1)[0], fn, text)
+
+
 def _sccs(graph):
     """Strongly connected components that contain a cycle (size > 1 or a self loop)."""
     index, low, on, stack, out, n = {}, {}, set(), [], [], [0]
@@ -462,7 +497,7 @@ def judge_probe(ctx, case, resp, prof):
 def verdict(ctx, case, r, out, xml, prof):
     if out == "panic":
         loc = location(r.get("location"))
-        return Fail("C12/panic@" + loc, "[%s] %s\n  panic at %s: %s" % (prof, describe(case), loc, str(r.get("panic"))[:300]),
+        return Fail("C12/panic@" + panic_site(r.get("location")), "[%s] %s\n  panic at %s: %s" % (prof, describe(case), loc, str(r.get("panic"))[:300]),
                     location=r.get("location"), xml_len=len(xml))
     if out == "died":
         kinds = cycle_kinds(xml)
@@ -561,10 +596,16 @@ def single_cases(base, stride=1, offset=0, risky=None):
                 yield {"base": base, "faults": [f]}
 
 
-def enumerate_singles(ctx, base, name, exhaustive, stride=1, offset=0):
-    ctx.enumerate(ctx.p_single, single_cases(base, stride, offset, risky=False), batch=batch_for(base), name=name, exhaustive=exhaustive)
+def enumerate_singles(ctx, group, name, exhaustive):
+    """group: [(base, stride, offset)]. One engine enumeration per name (the engine counts an enumeration as complete only
+    if every worker reports it exactly once): the classes that cannot create a cycle in large batches, the retargeting
+    classes (whose known stack overflows kill the driver) in small ones."""
+    big = max(len(load_base(b)[0].text) for b, _, _ in group)
+    ctx.enumerate(ctx.p_single, (c for b, st, off in group for c in single_cases(b, st, off, risky=False)),
+                  batch=max(20, min(300, 8000000 // big)), name=name + " - classes that cannot create a requirement cycle", exhaustive=exhaustive)
     if not ctx.stop():
-        ctx.enumerate(ctx.p_single, single_cases(base, stride, offset, risky=True), batch=6, name=name, exhaustive=exhaustive)
+        ctx.enumerate(ctx.p_single, (c for b, st, off in group for c in single_cases(b, st, off, risky=True)),
+                      batch=6, name=name + " - reference retargeting classes (href-*, typeref-el)", exhaustive=exhaustive)
 
 
 def batch_for(base):
@@ -580,8 +621,11 @@ def plan(ctx):
     if ctx.thorough():
         return files, []
     counts = {f: sum(1 for _ in load_base({"file": f})[0].faults()) for f in files}
-    small = [f for f in files if counts[f] <= 6000]
-    big = [f for f in files if counts[f] > 6000]
+    # a model that aborts unmutated (N_0088.dmn, finding F7) aborts under nearly every fault: the quick tier keeps it in the
+    # "unmutated" enumeration only, the thorough tier enumerates its faults as well
+    cyclic = {f for f in files if cycle_kinds(load_base({"file": f})[0].text)}
+    small = [f for f in files if counts[f] <= 6000 and f not in cyclic]
+    big = [f for f in files if counts[f] > 6000 and f not in cyclic]
     want, budget = 25, 34000
     stride = max(1, len(small) // want)
     chosen, total = [], 0
@@ -595,7 +639,8 @@ def plan(ctx):
     sampled = []
     for i in range(2):
         f = big[(ctx.seed * 2 + i) % len(big)]
-        st = max(1, counts[f] // 900)
+        # at most ~900 faults and ~30 MB of request text per large model
+        st = max(1, counts[f] // 900, counts[f] * os.path.getsize(os.path.join(REPO, f)) // 30000000)
         sampled.append((f, st, ctx.seed % st))
     return sorted(chosen), sampled
 
@@ -635,17 +680,16 @@ def run(ctx):
         xf.gen_model(s)
         gens.append({"gen": list(s.choices)})
     gens.insert(0, {"gen": []})
-    for b in gens:
-        enumerate_singles(ctx, b, "all single structural faults of %d generated models" % len(gens), True)
-        if ctx.stop():
-            return
+    enumerate_singles(ctx, [(b, 1, 0) for b in gens], "all single structural faults of %d generated models" % len(gens), True)
+    if ctx.stop():
+        return
     ctx.enumerate(ctx.p_min, ({"min": k} for k in MINIMAL if ctx.thorough() or k not in SLOW_MINIMAL), batch=1,
                   name="hand-minimised models of findings/C12.md", exhaustive=True)
     if ctx.stop():
         return
-    # nesting depth grid (valid models; the deepest list literal is a thorough-tier case because confirming a hang takes minutes)
+    # nesting depth grid (valid models)
     depths = {k: [16, 128, 1024, 4096] + ([20000] if ctx.thorough() else []) for k in NEST_KINDS}
-    depths["list-literal"] = [4, 8, 16, 20] + ([48] if ctx.thorough() else [])
+    depths["list-literal"] = [4, 8, 16, 20, 48, 200]   # 48 and 200: regression cases of finding F10 (fixed by eccc2b4 in /repo)
     ctx.enumerate(ctx.p_nest, ({"nest": k, "depth": n} for n in sorted({n for v in depths.values() for n in v}) for k in NEST_KINDS if n in depths[k]),
                   batch=1, name="nesting depth grid: %s x depths" % "/".join(NEST_KINDS), exhaustive=True)
     if ctx.stop():
@@ -658,14 +702,12 @@ def run(ctx):
     complete.sort(key=lambda f: (os.path.getsize(os.path.join(REPO, f)), f))
     name = ("all single structural faults of all %d shipped models" % nfiles if ctx.thorough()
             else "all single structural faults of %d of %d shipped models (subset rotates with the seed)" % (len(complete), nfiles))
-    for f in complete:
-        b = {"file": f}
-        enumerate_singles(ctx, b, name, ctx.thorough())
-        if ctx.stop():
-            return
-    for f, st, off in sampled:
-        b = {"file": f}
-        enumerate_singles(ctx, b, "every k-th single fault of large shipped models (quick tier only)", False, st, off)
+    enumerate_singles(ctx, [({"file": f}, 1, 0) for f in complete], name, ctx.thorough())
+    if ctx.stop():
+        return
+    if sampled:
+        enumerate_singles(ctx, [({"file": f}, st, off) for f, st, off in sampled],
+                          "every k-th single fault of large shipped models (quick tier only)", False)
         if ctx.stop():
             return
     if ctx.w == 0:
